@@ -22,7 +22,7 @@ Definition cmp (o : outcome) (err auth enc : bool) (m : meth) (ran : list (meth 
   | Err r => err && ran_eqb r ran
   | Ok r =>
       negb err && Bool.eqb (r_auth r) auth && Bool.eqb (r_enc r) enc
-      && (if r_auth r then meth_eqb (r_meth r) m else true)
+      && meth_eqb (r_meth r) m
       && ran_eqb (g_ran r) ran && Bool.eqb (g_encrypted r) encrypted
   end.
 
